@@ -52,7 +52,7 @@ def run(c):
             inputs.append(({"route": "method-" + m, "el": "none", "kind": "valid"}, ("%s %s HTTP/1.1\r\nHost: x\r\nOrigin: https://a.example\r\n\r\n" % (m, f)).encode()))
             inputs.append(({"route": "method-" + m, "el": "none", "kind": "valid"}, ("%s /nope HTTP/1.1\r\nHost: x\r\n\r\n" % m).encode()))
         if c.quick:
-            keep = [inputs[i] for i in sorted(rng.sample(range(len(inputs)), min(1500, len(inputs))))] + inputs[-18:]
+            keep = [inputs[i] for i in sorted(rng.sample(range(len(inputs)), min(4000, len(inputs))))] + inputs[-18:]
         else:
             keep = inputs
 
@@ -61,13 +61,9 @@ def run(c):
             if not resp:
                 return
             klass, method, _, _ = oracles.request_line(raw)
-            # the no-body rule applies to requests the server could read as HEAD / OPTIONS
-            nobody = klass == "wellformed" and method in ("HEAD", "OPTIONS")
-            if klass == "unspecified" and method is None:
-                method = raw.split(b" ", 1)[0].decode("latin-1").strip() if b" " in raw[:12] else None
-            if klass == "unspecified" and (method or "").upper() in ("HEAD", "OPTIONS"):
-                # corners the property does not speak about (lower-case version, extra spaces): with or without body is accepted
-                nobody = resp.endswith(b"\r\n\r\n")
+            if method is None and b" " in raw[:12]:
+                method = raw.split(b" ", 1)[0].decode("latin-1").strip()
+            nobody = oracles.expects_no_body(raw, resp)
             r = httpstrict.parse(resp, head_request=nobody)
             c.ev()
             if method in reqgen.METHODS and r.status:
